@@ -246,6 +246,7 @@ struct GlobalShm {
   volatile uint64_t next_item;
   volatile uint64_t items_done;
   volatile int deadline_hit;
+  volatile int crash_cap_hit;
 };
 
 struct Known { std::string prop, key, text; };
@@ -374,6 +375,7 @@ struct Ctx {
         }
         for (;;) {
           if (args.past_deadline()) { g->deadline_hit = 1; break; }
+          if (g->crash_cap_hit) break;
           uint64_t it = __sync_fetch_and_add(&g->next_item, 1);
           if (it >= n) break;
           my().cur_item = it; my().wants_in_item = 0; my().item_active = 1;
@@ -408,7 +410,7 @@ struct Ctx {
         my().in_case = 0;
         me = save;
         parent_restarts++;
-        if (parent_restarts > 2000) machinery_error("too many crashing cases");
+        if (parent_restarts > 400) { g->crash_cap_hit = 1; alive--; continue; }  // enough evidence: stop exploring, report
         spawn(k, true);  // finish the interrupted item (skipping what was already executed), then continue
       } else {
         alive--;
@@ -464,7 +466,7 @@ struct Ctx {
     // violations beyond the per-worker record capacity are still violations
     uint64_t unrecorded = t.violations > recs.size() ? t.violations - recs.size() : 0;
     if (unrecorded && real == 0 && knownhits == 0) real = unrecorded;
-    bool capped = g->deadline_hit != 0;
+    bool capped = g->deadline_hit != 0 || g->crash_cap_hit != 0;
     double wall = now() - args.t0;
     if (!args.replaying()) {
       Json cov = Json::obj();
@@ -474,7 +476,8 @@ struct Ctx {
       if (samples.empty()) sm.push("(none)");
       cov.set("samples", sm);
       cov.set("exhaustive", exhaustive_if_no_cap && !capped);
-      if (capped) cov.set("cap_hit", sfmt("global deadline of %.0f s reached; %llu work items completed", args.deadline_s,
+      if (g->crash_cap_hit) cov.set("cap_hit", "exploration stopped after 400 crashing cases (all reported as violations)");
+      else if (capped) cov.set("cap_hit", sfmt("global deadline of %.0f s reached; %llu work items completed", args.deadline_s,
                                           (unsigned long long)g->items_done));
       Json met = Json::obj();
       for (int k = 0; k < NMET; ++k) {
